@@ -17,6 +17,7 @@ package l4wireguard
 import (
 	"bytes"
 	"encoding/binary"
+	"errors"
 	"io"
 	"strconv"
 
@@ -133,6 +134,9 @@ type MessageInitiation struct {
 }
 
 func (msg *MessageInitiation) FromBytes(src []byte) error {
+	if len(src) > MessageInitiationBytesTotal {
+		return ErrSourceTooLong
+	}
 	buf := bytes.NewBuffer(src)
 	if err := binary.Read(buf, MessageBytesOrder, &msg.Type); err != nil {
 		return err
@@ -233,6 +237,9 @@ var (
 
 var (
 	MessageBytesOrder = binary.LittleEndian
+
+	// ErrSourceTooLong is returned by MessageInitiation.FromBytes for a source longer than the message.
+	ErrSourceTooLong = errors.New("source is longer than the message")
 )
 
 // Refs:
